@@ -2,9 +2,12 @@ package w
 
 import (
 	"bufio"
+	"bytes"
 	"encoding/json"
 	"fmt"
 	"os"
+	"os/exec"
+	"path/filepath"
 	"testing"
 
 	"verif/h/pt"
@@ -67,7 +70,56 @@ func TestWorker(t *testing.T) {
 		of.Close()
 		os.Exit(7)
 	}
+	isolatedExec = func(check string, params json.RawMessage, h []pt.Action, a pt.Action) (*pt.Succ, error) {
+		dir, err := os.MkdirTemp(filepath.Dir(os.Getenv("VERIF_OUT")), "iso")
+		if err != nil {
+			return nil, err
+		}
+		defer os.RemoveAll(dir)
+		eb, _ := json.Marshal(map[string]interface{}{"act": a})
+		jb, _ := json.Marshal(pt.Job{Check: check, Kind: "exec-one", Params: params, Items: [][]pt.Action{h}, Extra: eb})
+		if err := os.WriteFile(filepath.Join(dir, "job.json"), jb, 0o644); err != nil {
+			return nil, err
+		}
+		cmd := exec.Command(os.Args[0], "-test.run", "^TestWorker$", "-test.timeout", "10m")
+		cmd.Env = append(os.Environ(), "VERIF_JOB="+filepath.Join(dir, "job.json"), "VERIF_OUT="+filepath.Join(dir, "out.jsonl"))
+		runErr := cmd.Run()
+		ob, _ := os.ReadFile(filepath.Join(dir, "out.jsonl"))
+		var got *pt.Succ
+		for _, ln := range bytes.Split(ob, []byte("\n")) {
+			var l pt.Line
+			if len(ln) == 0 || json.Unmarshal(ln, &l) != nil {
+				continue
+			}
+			if l.Viol != nil { // the process had to exit with a violation (hang)
+				got = &pt.Succ{A: a, Viol: l.Viol, Terminal: true, Key: "viol:" + l.Viol.Sig, Evals: 1}
+			}
+			if len(l.Succs) == 1 {
+				got = &l.Succs[0]
+			}
+		}
+		if got == nil {
+			return nil, fmt.Errorf("no result from the process (%v)", runErr)
+		}
+		return got, nil
+	}
 	switch job.Kind {
+	case "exec-one":
+		isolatedExec = nil
+		f, ok := registry[job.Check]
+		if !ok || len(job.Items) != 1 {
+			emit(pt.Line{Err: "unknown check " + job.Check}, true)
+			return
+		}
+		var ex struct {
+			Act pt.Action `json:"act"`
+		}
+		json.Unmarshal(job.Extra, &ex)
+		zero := 0
+		curItem = 0
+		emit(pt.Line{Start: &zero, I: 0}, true)
+		s := execOne(job.Check, f, job.Params, job.Items[0], ex.Act)
+		emit(pt.Line{I: 0, Succs: []pt.Succ{s}, Done: true}, true)
 	case "expand":
 		f, ok := registry[job.Check]
 		if !ok {
